@@ -848,6 +848,7 @@ class Ctx:
         self.status = 200
         self.reason = "OK"
         self.headers = []            # list of (name, value)
+        self.hdr_tx = []             # functions (final body) -> [(name, value)]
         self.byte_tx = []            # functions bytes -> bytes
         self.raw_body = None         # overrides the tree
         self.exc = None              # transport exception (instance)
@@ -1184,7 +1185,10 @@ def s_cimerror(ctx, d):
                             "Validation%20failed%3A%20x%0D%0A"))
     elif c == "pgbad":
         ctx.headers.append(("PGErrorDetail",
-                            ctx.rng.choice(["%zz%FF%", "%", "%E4%F6", ""])))
+                            ctx.rng.choice(["%zz%FF%", "%", "%E4%F6", "",
+                                            "%00%0A", "%u20AC", "a%2", "%%41",
+                                            "%C3%28", "%ED%A0%80",
+                                            "%41" * 3000, "+%2B+", "\u00e4%"])))
 
 
 # -- content type ------------------------------------------------------------
@@ -1202,6 +1206,49 @@ def c_type(ctx, d):
     if v is not None:
         ctx.headers.append((ctx.rng.choice(["Content-Type", "content-type",
                                             "CONTENT-TYPE"]), v))
+
+
+# -- numeric response headers ---------------------------------------------------
+# Header values are part of "every response".  Kind h_num = ONE header whose
+# value the client side converts to a number, carrying a lexeme of every
+# numeric text class the body values have (NUM_CLS): ty = which header
+#   resptime  WBEMServerResponseTime (pywbem: float(value) / 1000000 in
+#             wbem_request(), for every status)
+#   clen      Content-Length (requests/urllib3 below pywbem: int(value), framing
+#             of the body)
+# A header value is a latin-1 string without CR/LF.
+HDR_NUM = {"resptime": ["WBEMServerResponseTime", "wbemserverresponsetime",
+                        "WBEMSERVERRESPONSETIME"],
+           "clen": ["Content-Length", "content-length"]}
+
+
+def hdr_num_text(cls, rng):
+    if cls == "ws":
+        return rng.choice([" ", "\t  ", "  "])
+    if cls == "udig":
+        # digits outside ASCII that latin-1 can carry
+        return rng.choice(["\u00b2", "\u00b9\u00b2", "1\u00b3"])
+    t = num_text("uint64", cls, rng)
+    return t.replace("\n", " ")
+
+
+@kind("h_num", "header", tys=sorted(HDR_NUM), clss=NUM_CLS)
+def h_num(ctx, d):
+    c = d["cls"]
+    name = ctx.rng.choice(HDR_NUM[d["ty"]])
+    if d["ty"] == "clen" and c in ("dec", "oor"):
+        # dec: the true length (a valid header); oor: a length the body
+        # does not have
+        k = ctx.rng.choice([1, 7, 2**31, 2**64])
+
+        def tx(body, name=name, c=c, k=k):
+            return [(name, str(len(body) + (k if c == "oor" else 0)))]
+        ctx.hdr_tx.append(tx)
+        return
+    text = hdr_num_text(c, ctx.rng)
+    if d["ty"] == "resptime" and c == "dec":
+        text = str(ctx.rng.choice([0, 1, 1234, 98765432]))
+    ctx.headers.append((name, text))
 
 
 # -- byte level: UTF-8 / XML characters / well-formedness ------------------------
@@ -2505,7 +2552,7 @@ def m_misc(ctx, d):
 LEVEL = {"error": 0, "optype": 1, "value": 2, "envelope": 3}
 TREE_KINDS_LAST = ("f_tree",)
 BYTE_STAGES = ("utf8", "xml")
-HTTP_STAGES = ("ctype", "status", "transport")
+HTTP_STAGES = ("ctype", "status", "transport", "header")
 
 
 def defect_ok(shape, d, has_error=False):
@@ -2617,6 +2664,8 @@ def render(shape, wire, defects, rng, eos=None):
     else:
         for tx in ctx.byte_tx:
             body = tx(body)
+    for tx in ctx.hdr_tx:
+        ctx.headers = ctx.headers + tx(body)
     return Resp(ctx.status, ctx.reason, ctx.headers, body, ctx.exc,
                 ctx.body_reader, ctx.redirect)
 
